@@ -496,18 +496,23 @@ impl Outbound<'_> {
                 SendState::Sent => out.push('S'),
             }
         }
-        write!(out, "cap={} used={} buf=", self.buf.len(), self.used).unwrap();
-        let shown = self.used.min(self.buf.len());
-        for byte in &self.buf[..shown] {
-            write!(out, "{:02x}", byte).unwrap();
-        }
-        out.push_str(" ret=[");
+        write!(out, "cap={} used={} ret=[", self.buf.len(), self.used).unwrap();
         for (i, entry) in self.retained.iter().enumerate() {
             if i != 0 {
                 out.push(',');
             }
             write!(out, "{}:{}:{}:", entry.packet_id, entry.offset, entry.len).unwrap();
             state(out, entry.state);
+            out.push(':');
+            // the bytes of the entry, or `!` when its range is outside the arena
+            match self.buf.get(entry.offset..entry.offset.saturating_add(entry.len)) {
+                Some(bytes) => {
+                    for byte in bytes {
+                        write!(out, "{:02x}", byte).unwrap();
+                    }
+                }
+                None => out.push('!'),
+            }
         }
         out.push_str("] ctl=[");
         for (i, entry) in self.pending_control.iter().enumerate() {
